@@ -1885,7 +1885,7 @@ where
             streams.push(stream.verif_json());
         });
         format!(
-            "{{{},{},{},\"store_len\":{},\"slab_len\":{},\"send_buffer_len\":{},\"refs\":{},\"conn_error\":{},\"streams\":[{}]}}",
+            "{{{},{},{},\"store_len\":{},\"slab_len\":{},\"send_buffer_len\":{},\"refs\":{},\"conn_error\":{},\"streams\":[{}],\"unlinked\":[{}]}}",
             me.counts.verif_json(),
             me.actions.recv.verif_json(),
             me.actions.send.verif_json(),
@@ -1895,6 +1895,7 @@ where
             me.refs,
             me.actions.conn_error.is_some(),
             streams.join(","),
+            me.store.verif_unlinked().join(","),
         )
     }
 }
